@@ -148,7 +148,7 @@ def generic_deref_tie(tie):
 
 def main(tier):
     t0 = time.time()
-    proof = common.proof_obligations("C09", modules=["EduceModel.Props.C09", "EduceModel.Props.E2E"])
+    proof = common.proof_obligations("C09", modules=["EduceModel.Props.C09", "EduceModel.Props.E2E", "EduceModel.Props.Profile"])
     n_defs, cap_vals = (250, 3) if tier == "quick" else (3000, 6)
     tie = b1.run_b1("C09", P(), n_defs, cap_vals, common.seed())
     try:
